@@ -199,6 +199,25 @@ def r6_flag_targets(rep, facts):
                   f'`{d.replace(P, "")}`: {"; ".join(wrong) if wrong else "no flag reset found"}', facts.loc(b))
 
 
+def r6b_opened_table_flags(rep, facts):
+    R = rep.rule('C09/R6b', 'the table a header opens is explicit afterwards, whichever table it is: start_table / start_array_table evaluated on a model parser state '
+                 '(nothing under the name; a header-implied table there, which `[t]` adopts) leave the current table neither implicit nor dotted, under the header\'s path', floor=4)
+    from .shared import header_start_model
+    for fn, case, out in header_start_model(facts):
+        d = ST + fn
+        loc = facts.loc(facts.body(d)) if facts.has_body(d) else ''
+        if isinstance(out, str):
+            (rep.incomplete if out.startswith('unanalysable') else rep.bad)(R, f'{fn}|{case}', f'`{fn}` with {case}: {out}', loc)
+            continue
+        if out is None:
+            rep.bad(R, f'{fn}|{case}', f'`{fn}` refuses a header with {case} under its name (TOML permits a super-table after its sub-table)', loc)
+            continue
+        ok = out['implicit'] is False and out['dotted'] is False and out['path'] == ['a', 'b'] and out['is_array'] == (fn == 'start_array_table')
+        rep.check(R, f'{fn}|{case}', ok, 'explicit, not dotted, path and kind recorded',
+                  f'`{fn}` with {case}: afterwards the current table has implicit={out["implicit"]}, dotted={out["dotted"]}, path {out["path"]}, is_array={out["is_array"]}: '
+                  f'a second header of the same name (or a dotted key into it) is no longer recognised as a redefinition', loc)
+
+
 def r2_occupied_is_error(rep, facts):
     R = rep.rule('C09/R2', 'every occupied / mismatching case returns an error: Entry::Occupied arms, the catch-all arms of the header '
                  'starters, and the value arm of both descend_paths', floor=8)
@@ -612,6 +631,7 @@ def rules(rep, facts):
     r3b_accessors(rep, facts)
     r4_plumbing(rep, facts)
     r6_flag_targets(rep, facts)
+    r6b_opened_table_flags(rep, facts)
     r7_one_name(rep, facts)
 
 
